@@ -167,7 +167,11 @@ class HeapOps:
     def __init__(self, ex):
         self.ex = ex
 
+    trace = None
+
     def arr(self, st: State, key, dom_sorts, rng):
+        if self.trace is not None:
+            self.trace[key] = (tuple(dom_sorts), rng)
         if key in st.heap:
             return st.heap[key]
         return z3.Const("H0!" + key, _arr_sort(dom_sorts, rng))
